@@ -2132,4 +2132,119 @@ theorem sumOver_extend (start dt : Int) (hdt : 0 < dt) (pre data post : List Int
     refine ⟨decide_eq_true (by omega), decide_eq_true ?_⟩
     rw [this]; omega
 
+/-! ## seconds as binary64 values (deepening round D) -/
+
+
+theorem mul3_le {a1 a2 a3 b1 b2 b3 : Nat} (h1 : a1 ≤ b1) (h2 : a2 ≤ b2) (h3 : a3 ≤ b3) :
+    a1 * a2 * a3 ≤ b1 * b2 * b3 := Nat.mul_le_mul (Nat.mul_le_mul h1 h2) h3
+
+/-- three roundings in a row (`f ≈ N`, `c ≈ 1/E`, `s ≈ f·c`), each with relative error at most `1/K` -/
+theorem three_stage (K Km Kp N E f1 f2 c1 c2 s1 s2 : Nat) (hf1 : 0 < f1) (hf2 : 0 < f2) (hc1 : 0 < c1)
+    (hc2 : 0 < c2)
+    (Fu : K * (f1 * 1) ≤ Kp * (N * f2)) (Fl : Km * (N * f2) ≤ K * (f1 * 1))
+    (Cu : K * (c1 * E) ≤ Kp * (1 * c2)) (Cl : Km * (1 * c2) ≤ K * (c1 * E))
+    (Su : K * (s1 * (f2 * c2)) ≤ Kp * (f1 * c1 * s2)) (Sl : Km * (f1 * c1 * s2) ≤ K * (s1 * (f2 * c2))) :
+    K * K * K * (s1 * E) ≤ Kp * Kp * Kp * (N * s2) ∧ Km * Km * Km * (N * s2) ≤ K * K * K * (s1 * E) := by
+  have hC : 0 < f1 * c1 * (f2 * c2) := Nat.mul_pos (Nat.mul_pos hf1 hc1) (Nat.mul_pos hf2 hc2)
+  constructor
+  · apply Nat.le_of_mul_le_mul_right (c := f1 * c1 * (f2 * c2)) _ hC
+    have h := mul3_le Fu Cu Su
+    have e1 : K * K * K * (s1 * E) * (f1 * c1 * (f2 * c2))
+        = K * (f1 * 1) * (K * (c1 * E)) * (K * (s1 * (f2 * c2))) := by
+      simp only [Nat.mul_one]; ac_rfl
+    have e2 : Kp * Kp * Kp * (N * s2) * (f1 * c1 * (f2 * c2))
+        = Kp * (N * f2) * (Kp * (1 * c2)) * (Kp * (f1 * c1 * s2)) := by
+      simp only [Nat.one_mul]; ac_rfl
+    rw [e1, e2]; exact h
+  · apply Nat.le_of_mul_le_mul_right (c := f1 * c1 * (f2 * c2)) _ hC
+    have h := mul3_le Fl Cl Sl
+    have e1 : K * K * K * (s1 * E) * (f1 * c1 * (f2 * c2))
+        = K * (f1 * 1) * (K * (c1 * E)) * (K * (s1 * (f2 * c2))) := by
+      simp only [Nat.mul_one]; ac_rfl
+    have e2 : Km * Km * Km * (N * s2) * (f1 * c1 * (f2 * c2))
+        = Km * (N * f2) * (Km * (1 * c2)) * (Km * (f1 * c1 * s2)) := by
+      simp only [Nat.one_mul]; ac_rfl
+    rw [e1, e2]; exact h
+
+theorem rnDiv_pos (p q : Nat) (hp : 0 < p) (hq : 0 < q) : 0 < (rnDiv p q).1 ∧ 0 < (rnDiv p q).2 := by
+  have h := rnDiv_err p q hp hq
+  refine ⟨?_, h.1⟩
+  rcases Nat.eq_zero_or_pos (rnDiv p q).1 with h0 | h0
+  · rw [h0] at h
+    have : 0 < p * (rnDiv p q).2 := Nat.mul_pos hp h.1
+    omega
+  · exact h0
+
+/-- `float(N) * 1e-9` is within `(1 ± 2⁻⁵³)³` of `N·10⁻⁹` (cross-multiplied) -/
+theorem secondsOf_err (N : Nat) (hN : 0 < N) :
+    0 < (secondsOf N).2 ∧
+    9007199254740992 * 9007199254740992 * 9007199254740992 * ((secondsOf N).1 * 1000000000)
+      ≤ 9007199254740993 * 9007199254740993 * 9007199254740993 * (N * (secondsOf N).2) ∧
+    9007199254740991 * 9007199254740991 * 9007199254740991 * (N * (secondsOf N).2)
+      ≤ 9007199254740992 * 9007199254740992 * 9007199254740992 * ((secondsOf N).1 * 1000000000) := by
+  unfold secondsOf
+  rw [if_neg (by omega)]
+  simp only []
+  have hf := rnDiv_err N 1 hN (by omega)
+  have hfp := rnDiv_pos N 1 hN (by omega)
+  have hc := rnDiv_err 1 1000000000 (by omega) (by omega)
+  have hcp := rnDiv_pos 1 1000000000 (by omega) (by omega)
+  generalize rnDiv N 1 = f at hf hfp ⊢
+  generalize rnDiv 1 1000000000 = c at hc hcp ⊢
+  have hs := rnDiv_err (f.1 * c.1) (f.2 * c.2) (Nat.mul_pos hfp.1 hcp.1) (Nat.mul_pos hfp.2 hcp.2)
+  generalize rnDiv (f.1 * c.1) (f.2 * c.2) = s at hs ⊢
+  exact ⟨hs.1, three_stage _ _ _ N 1000000000 f.1 f.2 c.1 c.2 s.1 s.2 hfp.1 hfp.2 hcp.1 hcp.2
+    hf.2.1 hf.2.2 hc.2.1 hc.2.2 hs.2.1 hs.2.2⟩
+
+/-- `x * n` in binary64 is within `(1 ± 2⁻⁵³)²` of the exact product -/
+theorem timesNat_err (x : Nat × Nat) (n : Nat) (hx1 : 0 < x.1) (hx2 : 0 < x.2) (hn : 0 < n) :
+    0 < (timesNat x n).2 ∧
+    9007199254740992 * 9007199254740992 * ((timesNat x n).1 * x.2)
+      ≤ 9007199254740993 * 9007199254740993 * (x.1 * n * (timesNat x n).2) ∧
+    9007199254740991 * 9007199254740991 * (x.1 * n * (timesNat x n).2)
+      ≤ 9007199254740992 * 9007199254740992 * ((timesNat x n).1 * x.2) := by
+  unfold timesNat
+  rw [if_neg (by omega)]
+  simp only []
+  have hf := rnDiv_err n 1 hn (by omega)
+  have hfp := rnDiv_pos n 1 hn (by omega)
+  generalize rnDiv n 1 = f at hf hfp ⊢
+  have hs := rnDiv_err (x.1 * f.1) (x.2 * f.2) (Nat.mul_pos hx1 hfp.1) (Nat.mul_pos hx2 hfp.2)
+  generalize rnDiv (x.1 * f.1) (x.2 * f.2) = s at hs ⊢
+  refine ⟨hs.1, ?_, ?_⟩
+  · apply Nat.le_of_mul_le_mul_right (c := f.1 * f.2) _ (Nat.mul_pos hfp.1 hfp.2)
+    have h := Nat.mul_le_mul hf.2.1 hs.2.1
+    have e1 : 9007199254740992 * 9007199254740992 * (s.1 * x.2) * (f.1 * f.2)
+        = 9007199254740992 * (f.1 * 1) * (9007199254740992 * (s.1 * (x.2 * f.2))) := by
+      simp only [Nat.mul_one]; ac_rfl
+    have e2 : 9007199254740993 * 9007199254740993 * (x.1 * n * s.2) * (f.1 * f.2)
+        = 9007199254740993 * (n * f.2) * (9007199254740993 * (x.1 * f.1 * s.2)) := by ac_rfl
+    rw [e1, e2]; exact h
+  · apply Nat.le_of_mul_le_mul_right (c := f.1 * f.2) _ (Nat.mul_pos hfp.1 hfp.2)
+    have h := Nat.mul_le_mul hf.2.2 hs.2.2
+    have e1 : 9007199254740992 * 9007199254740992 * (s.1 * x.2) * (f.1 * f.2)
+        = 9007199254740992 * (f.1 * 1) * (9007199254740992 * (s.1 * (x.2 * f.2))) := by
+      simp only [Nat.mul_one]; ac_rfl
+    have e2 : 9007199254740991 * 9007199254740991 * (x.1 * n * s.2) * (f.1 * f.2)
+        = 9007199254740991 * (n * f.2) * (9007199254740991 * (x.1 * f.1 * s.2)) := by ac_rfl
+    rw [e1, e2]; exact h
+
+/-- the fraction `s` lies within `(1 ± 2⁻⁵³)³` of `a / b` -/
+def Within3 (s : Nat × Nat) (a b : Nat) : Prop :=
+  0 < s.2 ∧
+  9007199254740992 * 9007199254740992 * 9007199254740992 * (s.1 * b)
+    ≤ 9007199254740993 * 9007199254740993 * 9007199254740993 * (a * s.2) ∧
+  9007199254740991 * 9007199254740991 * 9007199254740991 * (a * s.2)
+    ≤ 9007199254740992 * 9007199254740992 * 9007199254740992 * (s.1 * b)
+
+/-- the fraction `s` lies within `(1 ± 2⁻⁵³)²` of `a / b` -/
+def Within2 (s : Nat × Nat) (a b : Nat) : Prop :=
+  0 < s.2 ∧
+  9007199254740992 * 9007199254740992 * (s.1 * b) ≤ 9007199254740993 * 9007199254740993 * (a * s.2) ∧
+  9007199254740991 * 9007199254740991 * (a * s.2) ≤ 9007199254740992 * 9007199254740992 * (s.1 * b)
+
+theorem toNat_natCast_mul (k : Nat) (dt : Int) (hdt : 0 < dt) : ((k : Int) * dt).toNat = k * dt.toNat := by
+  obtain ⟨n, rfl⟩ := Int.eq_ofNat_of_zero_le (Int.le_of_lt hdt)
+  rw [← Int.natCast_mul, Int.toNat_natCast, Int.toNat_natCast]
+
 end Verif.C03
